@@ -65,6 +65,8 @@ class Markers(object):
                 self.follow = [other, recent[-1].split(" ")[0]]
                 return cmd
         cmd = self.fresh(rnd)
+        if rnd.random() < 0.07:
+            cmd = re.sub(r"^([GM])(\d+)", lambda m: m.group(1) + rnd.choice(["0", "00"]) + m.group(2), cmd)    # M0117, G04
         self.recent = (getattr(self, "recent", []) + [cmd])[-5:]
         return cmd
 
@@ -252,7 +254,11 @@ def build_case(rnd, tier, for_c15=False):
     exit_ = ["M117 EXIT#0", "M400", "M106 S201"][:n_exit]
     if n_exit and rnd.random() < 0.5:
         exit_ = list(reversed(exit_))
-    settings = dict(clear=False, shrink=False, g90e=False, ext=ext, at=[list(a) for a in DEFAULT_AT],
+    at = [list(a) for a in DEFAULT_AT]
+    if rnd.random() < 0.15:
+        # a second disable rule that matches the same command as the default one (a shorthand the user added), listed twice even
+        at += [["ExcludeRegion", r"^\s*off\b", "disable_exclusion"], ["ExcludeRegion", r"^\s*(disable|off)(\s|$)", "disable_exclusion"]]
+    settings = dict(clear=False, shrink=False, g90e=False, ext=ext, at=at,
                     enter=decorate(rnd, enter), exit=decorate(rnd, exit_))
     regs = gen_regions(rnd, rnd.choice([1, 2, 2, 3]))
     marks = Markers(ext)
